@@ -947,6 +947,10 @@ ssize_t qlisttbl_load(qlisttbl_t *tbl, const char *filepath, char sepchar,
 
     // parse
     qlisttbl_lock(tbl);
+    // always append at the bottom so that the saved order is preserved,
+    // even for tables created with QLISTTBL_INSERTTOP.
+    bool inserttop = tbl->inserttop;
+    tbl->inserttop = false;
     char *offset, *buf;
     int cnt = 0;
     for (offset = str; *offset != '\0'; ) {
@@ -976,6 +980,7 @@ ssize_t qlisttbl_load(qlisttbl_t *tbl, const char *filepath, char sepchar,
         free(name);
         free(data);
     }
+    tbl->inserttop = inserttop;
     qlisttbl_unlock(tbl);
     free(str);
 
